@@ -283,7 +283,7 @@ def _sample(case):
 
 SUBS = [
     Sub('hash-seeds', oracle, _classify, strategy=lambda tier: _cases(),
-        budget={'quick': 8, 'thorough': 20}, sample=_sample, purge_every=2,
+        budget={'quick': 6, 'thorough': 20}, sample=_sample, purge_every=2,
         fingerprint=lambda c: fingerprint(c),
         require_tags=('multiple-inheritance', 'several-frames-several-senses')),
 ]
